@@ -137,7 +137,7 @@ func Echo() error {
 TRUE_VALUES = {b"1", b"t", b"T", b"TRUE", b"true", b"True"}          # the property's "set to a true value"
 BOOL_FLAG = {True: ["-v", "-v=true", "-v=1", "--v", "-v=T"], False: ["-v=false", "-v=0", "-v=F", "--v=false"]}
 SIX = [b"MAGEFILE_VERBOSE", b"MAGEFILE_LIST", b"MAGEFILE_HELP", b"MAGEFILE_DEBUG", b"MAGEFILE_GOCMD", b"MAGEFILE_TIMEOUT"]
-VOLATILE = {b"PWD", b"OLDPWD", b"_", b"SHLVL"}
+VOLATILE = set()     # nothing is exempt: PWD, OLDPWD, SHLVL, _ are ordinary variables of the caller (mage hands os.Environ() on)
 BASE_KEEP = ("PATH", "HOME", "TMPDIR", "LANG", "GOFLAGS", "GOPROXY", "GOSUMDB", "GOTOOLCHAIN", "CGO_ENABLED", "GOPATH", "GOCACHE", "GOROOT", "GOMODCACHE")
 SLOW_T = 6 * 10**9      # the timeout of the slow-build runs
 DEADLINES = [90 * 10**9, 3600 * 10**9, 360000 * 10**9]
@@ -149,7 +149,11 @@ EXTRA_POOL = [(b"FOO", b"bar"), (b"EMPTY", b""), (b"EQ", b"a=b=c"), (b"SP", b"x 
               (b"GOOS", b"notanos"), (b"GOARCH", b"bogus"), (b"GOOS", b""), (b"GOARCH", b""), (b"GOARCH", b"arm64"), (b"UNI", "héllo→世界".encode()), (b"NL", b"line1\nline2"),
               (b"TAB", b"a\tb "), (b"lower_case", b"Mixed"), (b"a.b-c", b"dots"), (b"BYTES", b"\xff\xfe\x80"), (b"QUOTE", b"\"'\\$HOME`x`"),
               (b"LONG", b"0123456789abcdef" * 20), (b"MAGEFILE_FOO", b"zzz"), (b"MAGEFILE_IGNOREDEFAULT", b"1"),
-              (b"MAGEFILE_TARGET_COLOR", b"Red"), (b"MAGEFILE_HASHFAST", b"1"), (b"MAGEFILEX", b"no underscore"), (b"EQ2", b"=lead")]
+              (b"MAGEFILE_TARGET_COLOR", b"Red"), (b"MAGEFILE_HASHFAST", b"1"), (b"MAGEFILEX", b"no underscore"), (b"EQ2", b"=lead"),
+              # variables a shell maintains, with deliberately odd values: they are the caller's, not mage's to correct
+              (b"PWD", b"/nonexistent/caller-pwd"), (b"PWD", b"/nonexistent/caller-pwd"), (b"PWD", b"/"), (b"PWD", b"relative/pwd"), (b"PWD", b""),
+              (b"OLDPWD", b"/nonexistent/old pwd"), (b"SHLVL", b"41"), (b"_", b"/odd/underscore"), (b"home", b"/lower-case-home"),
+              (b"Path", b"/mixed/case/path"), (b"GOFLAGS_", b"-odd")]
 
 
 def hx(b):
@@ -411,6 +415,8 @@ def gen_cfg(rng, klass, layout, gowrap, quick):
     # extra variables
     for k, v in rng.sample(EXTRA_POOL, rng.choice([0, 1, 2, 3, 3, 5, 8])):
         env[k] = v
+    if b"PWD" not in env and rng.random() < 0.5:
+        env[b"PWD"] = b"/nonexistent/caller-pwd"
     if klass == "alt":
         # a few thousand short writes alternating between stderr and stdout, both going to ONE sink
         c.update(word="echo", out="lines-odd", err="lines-even", combined=True, sink=rng.choice(["pipe", "file"]), seed=0,
@@ -963,7 +969,7 @@ def coq_case(cfg, proj, res, run, conv, bools):
             cands.add(conv["durstr"][n])
     dur_tab = coq_list(["(%s, %s)" % (cs(w.encode("latin-1")), coq_opt(coq_Z(conv["dur"][w])) if conv["dur"].get(w) is not None else "None")
                         for w in sorted(cands) if w in conv["dur"]])
-    keys = sorted(set(own) | set(SIX) | {b"GOOS", b"GOARCH", b"HOME", b"GOFLAGS", b"NOSUCH_VARIABLE", b"MAGEFILE_CACHE", b"MAGEFILE_HASHFAST"})
+    keys = sorted(set(own) | set(SIX) | {b"GOOS", b"GOARCH", b"HOME", b"GOFLAGS", b"PWD", b"OLDPWD", b"NOSUCH_VARIABLE", b"MAGEFILE_CACHE", b"MAGEFILE_HASHFAST"})
     layout = "{| has_magefiles_dir := %s; top_has_magefiles := %s |}" % (coq_bool(proj.layout in ("mfdir", "both")), coq_bool(proj.layout in ("plain", "both")))
     mode = {"run": "(OMode MRun)", "list": "(OMode MList)", "help": "(OMode MHelp)", "usage": "(OMode MUsage)", "rejected": "ORejected"}.get(o["mode"], "(OMode MUsage)")
     stream = {"stdout": "(Some CallerStdout)", "stderr": "(Some CallerStderr)", None: "None"}
